@@ -202,7 +202,12 @@ func c13UpstreamInputs(c *fw.Ctx, i int, name string) []c13Input {
 			out = append(out, c13Input{Class: "upstream/rtmp-pull-reply", Desc: fmt.Sprintf("origin reply %d bytes tail=%x", len(sc), sc[max(0, len(sc)-48):]), Run: func(s *srv.Server) error {
 				done := make(chan struct{}, 1)
 				stub.set(func(cn net.Conn) {
-					defer func() { done <- struct{}{} }()
+					defer func() {
+						select {
+						case done <- struct{}{}:
+						default:
+						}
+					}()
 					if !rtmpServerHandshake(cn) {
 						return
 					}
@@ -283,17 +288,30 @@ func c13UpstreamInputs(c *fw.Ctx, i int, name string) []c13Input {
 				scripts = append(scripts, sq)
 			}
 		}
+		// a complete exchange followed by bytes that are not an interleaved frame (a stray reply, line noise, a frame
+		// whose length field is short so that the next "frame" starts inside its payload): sent after the PLAY answer
+		for _, tail := range []string{"RTSP/1.0 200 OK\r\nCSeq: 9\r\n\r\n", "x", "\r\n\r\n", "$\x00\x00\x02abcd", "RTSP/1.0 200 OK\r\nContent-Length: 5\r\n\r\nab", "\x00\x00\x00"} {
+			for _, public := range []string{"Public: DESCRIBE, SETUP, PLAY", "Public: DESCRIBE, SETUP, PLAY, GET_PARAMETER"} {
+				sq := append([]string(nil), goodSeq...)
+				sq[0] = reply("200 OK", []string{public}, "")
+				scripts = append(scripts, append(sq, tail), append(sq, tail)) // once per rtsp_mode (k%2)
+			}
+		}
 		pk := c13RtpPackets(r)
 		for k, sq := range scripts {
 			sq := sq
 			k := k
 			stream := fmt.Sprintf("%s_rp%d", name, k)
-			out = append(out, c13Input{Class: "upstream/rtsp-pull-reply", Desc: fmt.Sprintf("rtsp origin script: %q", trunc(strings.Join(sq, "|"), 300)), Run: func(s *srv.Server) error {
+			out = append(out, c13Input{Class: "upstream/rtsp-pull-reply", Always: len(sq) > 5, Desc: fmt.Sprintf("rtsp origin script: %q", trunc(strings.Join(sq, "|"), 300)), Run: func(s *srv.Server) error {
 				done := make(chan struct{}, 2)
 				stub.set(func(cn net.Conn) {
 					cn.SetDeadline(time.Now().Add(3 * time.Second))
 					buf := make([]byte, 8192)
-					for _, rp := range sq {
+					for ri, rp := range sq {
+						if ri >= 5 {
+							cn.Write([]byte(rp)) // unsolicited bytes after the PLAY answer
+							continue
+						}
 						// wait for a request (ends with CRLFCRLF) — best effort
 						got := ""
 						for !strings.Contains(got, "\r\n\r\n") {
@@ -311,11 +329,14 @@ func c13UpstreamInputs(c *fw.Ctx, i int, name string) []c13Input {
 						}
 						cn.Write([]byte(strings.Replace(rp, "CSeq: 1", "CSeq: "+cseq, 1)))
 					}
-					for _, p := range pk {
-						cn.Write(dollar(rand.Intn(5), p))
+					for pi, p := range pk {
+						cn.Write(dollar((k+pi)%5, p))
 					}
 					time.Sleep(15 * time.Millisecond)
-					done <- struct{}{}
+					select {
+					case done <- struct{}{}:
+					default:
+					}
 				})
 				before := stub.accepts()
 				// lal pulls RTSP over TCP or UDP (rtsp_mode): the answers are read differently
@@ -396,7 +417,7 @@ func c13UpstreamInputs(c *fw.Ctx, i int, name string) []c13Input {
 		var sel []c13Input
 		off := r.Intn(8)
 		for k, in := range out {
-			if k%8 == off {
+			if k%8 == off || in.Always {
 				sel = append(sel, in)
 			}
 		}
@@ -434,7 +455,12 @@ func c13PushInputs(c *fw.Ctx, r *rand.Rand, name string) []c13Input {
 		out = append(out, c13Input{Class: "upstream/rtmp-push-reply", Desc: fmt.Sprintf("push target reply %d bytes tail=%x", len(sc), sc[max(0, len(sc)-48):]), Run: func(_ *srv.Server) error {
 			done := make(chan struct{}, 4)
 			stub.set(func(cn net.Conn) {
-				defer func() { done <- struct{}{} }()
+				defer func() {
+					select {
+					case done <- struct{}{}:
+					default: // a later connection of lal's push retries: nobody waits for it any more
+					}
+				}()
 				if !rtmpServerHandshake(cn) {
 					return
 				}
